@@ -17,6 +17,11 @@ use http::header::HeaderName;
 use oracle::{Precond, Spec, TagCond};
 use std::time::{Duration, UNIX_EPOCH};
 
+/// Polls of a 200/206 body inside the serve-level harnesses. The stream wrapper itself
+/// (ExactLenStream) is verified for arbitrary inner streams in body_h.rs; here it is enough to see
+/// that the body serve() built announces the right length and is fed by get_range(a..b).
+pub const BODY_POLLS: usize = 2;
+
 pub const M_GET: u8 = 0;
 pub const M_HEAD: u8 = 1;
 pub const M_POST: u8 = 2;
@@ -146,28 +151,55 @@ pub fn entity_headers_absent(sn: &Snap<'_>) -> bool {
     sn.count[S_CONTENT_LANGUAGE] == 0 && sn.count[S_CONTENT_TYPE] == 0
 }
 
+/// The body kind of a response is decided inside serve(); at the join points the model checker
+/// only knows "one of the four kinds", and would then execute all four stream
+/// implementations (on garbage state for the infeasible ones) on every poll. The harness
+/// therefore states which kind the pinned implementation uses for each response class and
+/// re-wraps the stream inside the `match` arm, which makes the kind a constant again.
+/// A different kind is reported as a failed HARNESS-ASSUMPTION, which the runner turns into
+/// "inconclusive" -- never into a violation.
+macro_rules! expect_kind {
+    ($body:expr, $variant:ident, $b:ident => $check:expr) => {
+        match $body.0 {
+            crate::body::BodyStream::$variant(x) => {
+                let $b = crate::body::Body(crate::body::BodyStream::$variant(x));
+                $check
+            }
+            other => {
+                std::mem::forget(other);
+                assert!(false, "HARNESS-ASSUMPTION: response body is of a different stream kind than the harness models for this response class");
+            }
+        }
+    };
+}
+
 /// Body of a 200 / single-range 206 for GET: exactly entity bytes a..b, contiguous, in order.
 /// `polls` must be large enough for the script (K_EV + 2) plus the C20 extra polls.
-pub fn check_exact_body(
-    resp: Response<crate::body::Body<Chunk, HErr>>,
+pub fn check_exact_body(body: crate::body::Body<Chunk, HErr>, a: u64, b: u64, polls: usize) {
+    expect_kind!(body, ExactLen, bd => check_exact_body_k(bd, a, b, polls))
+}
+
+pub fn check_exact_body_k(
+    body: crate::body::Body<Chunk, HErr>,
     a: u64,
     b: u64,
     polls: usize,
 ) {
     let announced = b - a;
-    let body = resp.into_body();
     let mut body = std::pin::pin!(body);
     let mut dr = Drain::new();
     drain(&mut body, polls, Some(announced), &mut dr);
     // C02: only Ent frames, contiguous from a
     let mut pos = a;
     let mut i = 0;
-    while i < MAX_FRAMES {
-        if i < dr.nframes {
-            let f = dr.frames[i];
-            assert!(f.kind == FR_ENT, "C02: non-entity bytes in a 200/206 body");
-            assert!(f.a == pos, "C02: entity bytes out of place (gap, repeat or shift)");
-            pos += f.b;
+    while i < MAX_POLLS {
+        if i < polls {
+            let f = dr.ev[i];
+            if f.kind == FR_ENT {
+                assert!(f.a == pos, "C02: entity bytes out of place (gap, repeat or shift)");
+                pos = pos.wrapping_add(f.b);
+            }
+            assert!(f.kind != FR_LIT && f.kind != FR_STAT, "C02: non-entity bytes in a 200/206 body");
         }
         i += 1;
     }
@@ -181,23 +213,31 @@ pub fn check_exact_body(
     }
     // liveness within the bound: honouring streams finish within K_EV + 2 polls
     if unsafe { !FAULTY } {
-        assert!(dr.terminal(), "body did not terminate within the poll bound");
         let script_has_err = unsafe {
             (SCRIPTS[0][0].kind % 3 == EV_ERR) || (SCRIPTS[0][1].kind % 3 == EV_ERR)
         };
+        if polls >= K_EV + 2 {
+            assert!(dr.terminal(), "body did not terminate within the poll bound");
+            if !script_has_err {
+                assert!(dr.ended && !dr.errored, "C01: contract-honouring entity but the body failed");
+            }
+        }
         if !script_has_err {
-            assert!(dr.ended && !dr.errored, "C01: contract-honouring entity but the body failed");
+            assert!(!dr.errored, "C01: contract-honouring entity but the body failed");
         }
         assert!(unsafe { CALLS } == 1, "C02: get_range not called exactly once");
         assert!(unsafe { CALL_LOG[0] } == (a, b), "C02: get_range called with a different range than announced");
     }
-    kani::cover!(dr.ended && !dr.errored && dr.nframes >= 2, "clean end after >= 2 frames");
+    kani::cover!(dr.nframes >= 1, "at least one data frame");
     kani::cover!(dr.errored, "entity error passed through");
 }
 
 /// Bodies of HEAD responses and of 304/416: empty, exact hint 0, entity untouched.
-pub fn check_empty_body(resp: Response<crate::body::Body<Chunk, HErr>>) {
-    let body = resp.into_body();
+pub fn check_empty_body(body: crate::body::Body<Chunk, HErr>) {
+    expect_kind!(body, Once, bd => check_empty_body_k(bd))
+}
+
+pub fn check_empty_body_k(body: crate::body::Body<Chunk, HErr>) {
     let mut body = std::pin::pin!(body);
     let mut dr = Drain::new();
     drain(&mut body, 3, Some(0), &mut dr);
@@ -208,8 +248,11 @@ pub fn check_empty_body(resp: Response<crate::body::Body<Chunk, HErr>>) {
 }
 
 /// Small fixed bodies (405, 412, 400, 413): exact hint = bytes delivered, no Content-Length needed.
-pub fn check_small_body(resp: Response<crate::body::Body<Chunk, HErr>>) {
-    let body = resp.into_body();
+pub fn check_small_body(body: crate::body::Body<Chunk, HErr>) {
+    expect_kind!(body, Once, bd => check_small_body_k(bd))
+}
+
+pub fn check_small_body_k(body: crate::body::Body<Chunk, HErr>) {
     let hint = http_body::Body::size_hint(&body);
     let mut body = std::pin::pin!(body);
     let mut dr = Drain::new();
@@ -221,126 +264,73 @@ pub fn check_small_body(resp: Response<crate::body::Body<Chunk, HErr>>) {
 }
 
 // =======================================================================================
-// H1: no request headers. C01 C02 C12 C13 C14 C15 C20 on the 200 / 405 paths.
-// SCENARIO serve_plain: method:u8 | EntDraw | script(K_CALLS x K_EV x (kind:u8 n:u64))
+// Decomposition. Executing the Range *text* parser inside serve() makes the model checker
+// explore string code on every path, so the serve-level harnesses replace
+// `range::parse` by `stub_parse`, which returns a harness-chosen result that satisfies
+// parse's contract (non-empty list of non-empty in-bounds ranges, or None / NotSatisfiable).
+// `range::parse` itself is compared with RFC 7233 on symbolic numbers in range_h.rs.
+// The stub records its arguments, so "serve hands the Range header (or None, when If-Range
+// does not match) and the entity length to the parser" is checked here, which is what makes
+// the two halves compose.
 
-#[kani::proof]
-#[kani::unwind(12)]
-#[kani::stub(std::time::SystemTime::now, hc::stub_now)]
-#[kani::stub(core::slice::memchr::memchr, hc::naive_memchr)]
-pub fn serve_plain() {
-    let method: u8 = kani::any();
-    kani::assume(method <= 3);
-    let d = draw_ent();
-    serve_plain_body(method, d)
-}
+pub const PR_NONE: u8 = 0;
+pub const PR_UNSAT: u8 = 1;
+pub const PR_SAT: u8 = 2;
 
-/// Structural choices fixed (constants), numbers symbolic.
-pub fn serve_plain_cfg(method: u8, etag: u8, has_mtime: bool, nhdr: u8) {
-    let mut d = draw_ent();
-    d.etag = etag;
-    d.has_mtime = has_mtime;
-    d.nhdr = nhdr;
-    serve_plain_body(method, d)
-}
+pub static mut PARSE_KIND: u8 = 0;
+pub static mut PARSE_N: usize = 0;
+pub static mut PARSE_RANGES: [(u64, u64); 3] = [(0, 0); 3];
+pub static mut PARSE_CALLS: u32 = 0;
+pub static mut PARSE_GOT_HDR: bool = false;
+pub static mut PARSE_GOT_MARKER: bool = false;
+pub static mut PARSE_GOT_LEN: u64 = 0;
 
-pub fn serve_plain_body(method: u8, d: EntDraw) {
-    draw_script(false);
-    let req = request(method);
-    let resp = serve(ent_of(&d), &req);
-    let st = resp.status().as_u16();
-    let sn = snap(resp.headers());
-    if method != M_GET && method != M_HEAD {
-        assert!(st == 405, "C13: non-GET/HEAD method not answered 405");
-        let allow = sn.val[S_ALLOW];
-        assert!(allow.is_some() && allow_names_get_and_head(allow.unwrap()), "C13: Allow does not name GET and HEAD");
-        check_small_body(resp);
-        return;
-    }
-    assert!(st == 200, "C03: request without Range not answered 200");
-    check_common_headers(&sn, &d);
-    assert!(entity_headers_present(&sn, &d), "C14: entity headers missing on 200");
-    assert!(sn.count[S_CONTENT_RANGE] == 0, "C02: Content-Range on a 200");
-    assert!(sn.count[S_CONTENT_LENGTH] == 1, "C01: 200 without exactly one Content-Length");
-    let cl = parse_whole_decimal(sn.val[S_CONTENT_LENGTH].unwrap());
-    assert!(cl == Some(d.len), "C01: Content-Length is not the entity length");
-    if method == M_HEAD {
-        check_empty_body(resp);
-    } else {
-        check_exact_body(resp, 0, d.len, K_EV + 4);
-    }
-}
+pub const RANGE_MARKER: &str = "bytes=marker";
 
-// =======================================================================================
-// H2: one range spec, optional If-Range. C01 C02 C03 C05 C12 C14 C15.
-
-pub const MAXN: usize = 4;
-pub const PH: [&str; MAXN] = ["101", "202", "303", "404"];
-pub static mut NUMS: [u64; MAXN] = [0; MAXN];
-pub static mut OKS: [bool; MAXN] = [true; MAXN];
-
-fn pie() -> std::num::ParseIntError {
-    match <u8 as std::str::FromStr>::from_str("x") {
-        Err(e) => e,
-        Ok(_) => unreachable!(),
-    }
-}
-
-/// Stub for `<u64 as FromStr>::from_str` (see range_h.rs for the rationale).
-pub fn stub_u64_from_str(s: &str) -> Result<u64, std::num::ParseIntError> {
-    let b = s.as_bytes();
-    let mut k = 0;
-    while k < MAXN {
-        if bytes_eq(b, PH[k].as_bytes()) {
-            return unsafe {
-                if OKS[k] {
-                    Ok(NUMS[k])
-                } else {
-                    Err(pie())
-                }
-            };
-        }
-        k += 1;
-    }
-    if b.is_empty() {
-        return Err(pie());
-    }
-    let mut i = 0;
-    if b[0] == b'+' {
-        i = 1;
-        if b.len() == 1 {
-            return Err(pie());
-        }
-    }
-    let mut v: u64 = 0;
-    while i < b.len() {
-        let c = b[i];
-        if c < b'0' || c > b'9' {
-            return Err(pie());
-        }
-        v = match v.checked_mul(10).and_then(|x| x.checked_add((c - b'0') as u64)) {
-            Some(x) => x,
-            None => return Err(pie()),
-        };
-        i += 1;
-    }
-    Ok(v)
-}
-
-pub fn draw_nums() -> ([u64; MAXN], [bool; MAXN]) {
-    let mut nums = [0u64; MAXN];
-    let mut oks = [true; MAXN];
-    let mut i = 0;
-    while i < MAXN {
-        nums[i] = kani::any();
-        oks[i] = kani::any();
-        i += 1;
-    }
+pub fn stub_parse(r: Option<&HeaderValue>, len: u64) -> crate::range::ResolvedRanges {
+    use crate::range::ResolvedRanges;
     unsafe {
-        NUMS = nums;
-        OKS = oks;
+        PARSE_CALLS += 1;
+        PARSE_GOT_LEN = len;
+        PARSE_GOT_HDR = r.is_some();
+        PARSE_GOT_MARKER = match r {
+            Some(v) => bytes_eq(v.as_bytes(), RANGE_MARKER.as_bytes()),
+            None => false,
+        };
+        if r.is_none() {
+            return ResolvedRanges::None;
+        }
+        match PARSE_KIND {
+            PR_NONE => ResolvedRanges::None,
+            PR_UNSAT => ResolvedRanges::NotSatisfiable,
+            _ => {
+                let mut v = smallvec::SmallVec::new();
+                let mut i = 0;
+                while i < 3 {
+                    if i < PARSE_N {
+                        v.push(PARSE_RANGES[i].0..PARSE_RANGES[i].1);
+                    }
+                    i += 1;
+                }
+                ResolvedRanges::Satisfiable(v)
+            }
+        }
     }
-    (nums, oks)
+}
+
+/// Structural choices of a scenario: constants in every harness instance, so that the map
+/// shapes and the control flow the model checker sees are concrete; numbers stay symbolic.
+#[derive(Clone, Copy)]
+pub struct Cfg {
+    pub method: u8,
+    pub etag: u8,
+    pub has_mtime: bool,
+    pub nhdr: u8,
+    /// If-Range variant (IR_*)
+    pub ir: u8,
+    /// what the (stubbed) range parser answers when it is given the header
+    pub parse: u8,
+    pub nranges: usize,
 }
 
 pub const IR_ABSENT: u8 = 0;
@@ -349,42 +339,49 @@ pub const IR_OTHER: u8 = 2; // "b"
 pub const IR_WEAK_SAME_OPAQUE: u8 = 3; // W/"a"
 pub const IR_DATE_EQ_LM: u8 = 4; // the served Last-Modified instant
 
-/// What C03/C05 expect for a request with exactly one grammatical, parseable spec.
-/// SCENARIO serve_range1: method:u8 form:u8 ir:u8 | nums(MAXN x (u64,bool)) | EntDraw | script
-pub fn serve_range1_body(form: u8) {
-    let method: u8 = kani::any();
-    kani::assume(method <= 1);
-    let ir: u8 = kani::any();
-    kani::assume(ir <= 4);
-    let (nums, oks) = draw_nums();
-    let d = draw_ent();
-    draw_script(false);
-
-    let (text, spec): (&'static str, Spec) = match form {
-        0 => ("bytes=101-202", Spec::FirstLast(Some(nums[0]), Some(nums[1]))),
-        1 => ("bytes=101-", Spec::From(Some(nums[0]))),
-        _ => ("bytes=-101", Spec::Suffix(Some(nums[0]))),
-    };
-    kani::assume(oks[0] && oks[1]);
-    kani::assume(oracle::spec_grammatical(spec));
-
-    let mut req = request(method);
-    req.headers_mut().insert(header::RANGE, HeaderValue::from_static(text));
-    let if_range_matches = match ir {
-        IR_ABSENT => true,
-        IR_SAME => {
-            // echo of whatever ETag the entity serves
-            match etag_text(d.etag) {
-                Some(t) => {
-                    req.headers_mut().insert(header::IF_RANGE, HeaderValue::from_static(t));
-                    d.etag == ETAG_STRONG || d.etag == ETAG_COMMA
-                }
-                None => {
-                    req.headers_mut().insert(header::IF_RANGE, HeaderValue::from_static("\"a\""));
-                    false
-                }
-            }
+/// SCENARIO serve_*: EntDraw | ranges 3 x (a:u64 b:u64) | script(K_CALLS x K_EV x (kind:u8 n:u64))
+pub fn serve_cfg(c: Cfg) {
+    let mut d = draw_ent();
+    d.etag = c.etag;
+    d.has_mtime = c.has_mtime;
+    d.nhdr = c.nhdr;
+    let mut rs = [(0u64, 0u64); 3];
+    let mut i = 0;
+    while i < 3 {
+        let a: u64 = kani::any();
+        let b: u64 = kani::any();
+        rs[i] = (a, b);
+        if i < c.nranges {
+            // contract of range::parse (verified in range_h.rs)
+            kani::assume(a < b && b <= d.len);
         }
+        i += 1;
+    }
+    draw_script(false);
+    unsafe {
+        PARSE_KIND = c.parse;
+        PARSE_N = c.nranges;
+        PARSE_RANGES = rs;
+    }
+
+    let mut req = request(c.method);
+    let has_range = c.parse != PR_NONE;
+    if has_range {
+        req.headers_mut().insert(header::RANGE, HeaderValue::from_static(RANGE_MARKER));
+    }
+    // C05: is the Range header to be honoured?
+    let honoured = match c.ir {
+        IR_ABSENT => true,
+        IR_SAME => match etag_text(d.etag) {
+            Some(t) => {
+                req.headers_mut().insert(header::IF_RANGE, HeaderValue::from_static(t));
+                d.etag == ETAG_STRONG || d.etag == ETAG_COMMA
+            }
+            None => {
+                req.headers_mut().insert(header::IF_RANGE, HeaderValue::from_static("\"a\""));
+                false
+            }
+        },
         IR_OTHER => {
             req.headers_mut().insert(header::IF_RANGE, HeaderValue::from_static("\"b\""));
             false
@@ -394,7 +391,6 @@ pub fn serve_range1_body(form: u8) {
             false
         }
         _ => {
-            // a date equal to what Last-Modified will say: may be refused (and is)
             let lm = if (d.m_secs, d.m_nanos) > (d.now_secs, d.now_nanos) { d.now_secs } else { d.m_secs };
             let tok = httpdate::model_token_bytes(lm);
             req.headers_mut().insert(header::IF_RANGE, HeaderValue::model_from_inline(&tok));
@@ -404,125 +400,383 @@ pub fn serve_range1_body(form: u8) {
 
     let resp = serve(ent_of(&d), &req);
     let st = resp.status().as_u16();
-    let sn = snap(resp.headers());
+    let (parts, resp) = resp.into_parts();
+    let sn = snap(&parts.headers);
+
+    if c.method != M_GET && c.method != M_HEAD {
+        assert!(st == 405, "C13: non-GET/HEAD method not answered 405");
+        let allow = sn.val[S_ALLOW];
+        assert!(allow.is_some() && allow_names_get_and_head(allow.unwrap()), "C13: Allow does not name GET and HEAD");
+        assert!(unsafe { PARSE_CALLS } == 0, "C13: request headers interpreted for a 405");
+        check_small_body(resp);
+        return;
+    }
+
+    // the parser was consulted once, with the entity length, and with the Range header
+    // exactly when it is to be honoured
+    assert!(unsafe { PARSE_CALLS } == 1, "C03: Range header not resolved exactly once");
+    assert!(unsafe { PARSE_GOT_LEN } == d.len, "C03: Range resolved against a length that is not the entity's");
+    if has_range && honoured {
+        assert!(unsafe { PARSE_GOT_HDR && PARSE_GOT_MARKER }, "C03/C05: Range header not handed to the resolver");
+    } else {
+        assert!(unsafe { !PARSE_GOT_HDR }, "C05: Range honoured although If-Range does not match a strong ETag");
+    }
     check_common_headers(&sn, &d);
 
-    if !if_range_matches {
-        // C05: complete representation, no Content-Range
-        assert!(st == 200, "C05: Range honoured although If-Range does not match a strong ETag");
-        assert!(sn.count[S_CONTENT_RANGE] == 0, "C05: Content-Range on a 200");
+    let effective = if has_range && honoured { c.parse } else { PR_NONE };
+    if effective == PR_NONE {
+        assert!(st == 200, "C03/C05: expected the complete representation (200)");
+        assert!(sn.count[S_CONTENT_RANGE] == 0, "C02/C05: Content-Range on a 200");
         assert!(sn.count[S_CONTENT_LENGTH] == 1, "C01: 200 without exactly one Content-Length");
         let cl = parse_whole_decimal(sn.val[S_CONTENT_LENGTH].unwrap());
         assert!(cl == Some(d.len), "C01: Content-Length is not the entity length");
         assert!(entity_headers_present(&sn, &d), "C14: entity headers missing on 200");
-        if method == M_HEAD {
+        if c.method == M_HEAD {
             check_empty_body(resp);
         } else {
-            check_exact_body(resp, 0, d.len, K_EV + 4);
+            check_exact_body(resp, 0, d.len, BODY_POLLS);
         }
-        kani::cover!(ir == IR_WEAK_SAME_OPAQUE, "weak If-Range refused");
         return;
     }
-
-    match oracle::resolve_spec(spec, d.len) {
-        None => {
-            assert!(st == 416, "C03: range set that selects nothing not answered 416");
-            let cr = sn.val[S_CONTENT_RANGE];
-            assert!(cr.is_some(), "C03: 416 without Content-Range");
-            assert!(parse_unsat_content_range(cr.unwrap()) == Some(d.len), "C03: 416 Content-Range is not bytes */L");
-            assert!(entity_headers_absent(&sn), "C14: entity headers on 416");
-            assert!(sn.count[S_CONTENT_LENGTH] == 0, "C01: Content-Length on a 416");
+    if effective == PR_UNSAT {
+        assert!(st == 416, "C03: range set that selects nothing not answered 416");
+        let cr = sn.val[S_CONTENT_RANGE];
+        assert!(cr.is_some() && sn.count[S_CONTENT_RANGE] == 1, "C03: 416 without Content-Range");
+        assert!(parse_unsat_content_range(cr.unwrap()) == Some(d.len), "C03: 416 Content-Range is not bytes */L");
+        assert!(entity_headers_absent(&sn), "C14: entity headers on 416");
+        assert!(sn.count[S_CONTENT_LENGTH] == 0, "C01: Content-Length on a 416");
+        check_empty_body(resp);
+        return;
+    }
+    if c.nranges == 1 {
+        let (a, b) = rs[0];
+        assert!(st == 206, "C03: satisfiable single range not answered 206");
+        let cr = sn.val[S_CONTENT_RANGE];
+        assert!(cr.is_some() && sn.count[S_CONTENT_RANGE] == 1, "C02: 206 without Content-Range");
+        let got = parse_content_range(cr.unwrap());
+        assert!(got == Some((a, b - 1, d.len)), "C02/C03: Content-Range does not name the resolved range a-b/L");
+        assert!(sn.count[S_CONTENT_LENGTH] == 1, "C01: 206 without Content-Length");
+        let cl = parse_whole_decimal(sn.val[S_CONTENT_LENGTH].unwrap());
+        assert!(cl == Some(b - a), "C01: Content-Length is not the range length");
+        if c.ir == IR_ABSENT {
+            assert!(entity_headers_present(&sn, &d), "C14: entity headers missing on 206 without If-Range");
+        } else {
+            assert!(entity_headers_absent(&sn), "C05: entity headers on 206 under If-Range");
+        }
+        if c.method == M_HEAD {
             check_empty_body(resp);
-            kani::cover!(d.len > 0, "416 on a non-empty entity");
+        } else {
+            check_exact_body(resp, a, b, BODY_POLLS);
         }
-        Some((a, b)) => {
-            assert!(st == 206, "C03: satisfiable single range not answered 206");
-            let cr = sn.val[S_CONTENT_RANGE];
-            assert!(cr.is_some() && sn.count[S_CONTENT_RANGE] == 1, "C02: 206 without Content-Range");
-            let got = parse_content_range(cr.unwrap());
-            assert!(got == Some((a, b - 1, d.len)), "C02/C03: Content-Range does not name the RFC range a-b/L");
-            assert!(sn.count[S_CONTENT_LENGTH] == 1, "C01: 206 without Content-Length");
-            let cl = parse_whole_decimal(sn.val[S_CONTENT_LENGTH].unwrap());
-            assert!(cl == Some(b - a), "C01: Content-Length is not the range length");
-            if ir == IR_ABSENT {
-                assert!(entity_headers_present(&sn, &d), "C14: entity headers missing on 206 without If-Range");
-            } else {
-                assert!(entity_headers_absent(&sn), "C05: entity headers on 206 under If-Range");
-            }
-            if method == M_HEAD {
-                check_empty_body(resp);
-            } else {
-                check_exact_body(resp, a, b, K_EV + 4);
-            }
-            kani::cover!(ir == IR_SAME, "206 under matching If-Range");
-            kani::cover!(b == d.len && a > 0, "range clamped to the entity end");
+        kani::cover!(b == d.len && a > 0, "range ending at the entity end");
+        return;
+    }
+    // >= 2 ranges: multipart or the complete representation
+    check_multi(c, &d, &rs, resp, st, &sn);
+}
+
+/// Expected bytes of one part header (numeral model: every number is a TOK-byte token).
+fn part_header_ok(lit: &[u8], a: u64, b: u64, len: u64, nhdr: u8) -> bool {
+    // "\r\n--B\r\nContent-Range: bytes " = 29 bytes
+    let p = 29;
+    if !(lit_at(lit, 0, b"\r\n--B\r\n") && lit_at(lit, 7, b"Content-") && lit_at(lit, 15, b"Range: ") && lit_at(lit, 22, b"bytes ")) {
+        return false;
+    }
+    if token_at(lit, p) != Some(a) || !lit_at(lit, p + TOK, b"-") {
+        return false;
+    }
+    if token_at(lit, p + TOK + 1) != Some(b - 1) || !lit_at(lit, p + 2 * TOK + 1, b"/") {
+        return false;
+    }
+    if token_at(lit, p + 2 * TOK + 2) != Some(len) || !lit_at(lit, p + 3 * TOK + 2, b"\r\n") {
+        return false;
+    }
+    let mut i = p + 3 * TOK + 4;
+    if nhdr >= 1 {
+        // "content-type: text/plain\r\n" = 26 bytes
+        if !(lit_at(lit, i, b"content-") && lit_at(lit, i + 8, b"type: ") && lit_at(lit, i + 14, b"text/") && lit_at(lit, i + 19, b"plain\r\n")) {
+            return false;
         }
+        i += 26;
+    }
+    if nhdr >= 2 {
+        // "content-language: en\r\n" = 22 bytes
+        if !(lit_at(lit, i, b"content-") && lit_at(lit, i + 8, b"language") && lit_at(lit, i + 16, b": en\r\n")) {
+            return false;
+        }
+        i += 22;
+    }
+    lit_at(lit, i, b"\r\n") && i + 2 == lit.len()
+}
+
+fn check_multi(c: Cfg, d: &EntDraw, rs: &[(u64, u64); 3], resp: crate::body::Body<Chunk, HErr>, st: u16, sn: &Snap<'_>) {
+    let n = c.nranges;
+    let required = oracle::multipart_required(&rs[..n], d.len);
+    let forbidden = oracle::multipart_forbidden(&rs[..n], d.len);
+    if st == 200 {
+        assert!(!required, "C03: complete 200 although the ranges plus 80 bytes each total under half the entity");
+        assert!(sn.count[S_CONTENT_RANGE] == 0, "C02: Content-Range on a 200");
+        let cl = parse_whole_decimal(sn.val[S_CONTENT_LENGTH].unwrap());
+        assert!(cl == Some(d.len), "C01: Content-Length is not the entity length");
+        assert!(entity_headers_present(sn, d), "C14: entity headers missing on 200");
+        if c.method == M_HEAD {
+            check_empty_body(resp);
+        } else {
+            check_exact_body(resp, 0, d.len, BODY_POLLS);
+        }
+        kani::cover!(true, "multi-range answered by the complete representation");
+        return;
+    }
+    // expected body length in 128 bits
+    let with_hdrs = c.ir == IR_ABSENT;
+    let per_part_hdrs: u128 = if with_hdrs {
+        (if d.nhdr >= 1 { 26 } else { 0 }) + (if d.nhdr >= 2 { 22 } else { 0 })
+    } else {
+        0
+    };
+    if st == 413 {
+        // only when the multipart body length cannot be expressed: bound it from above
+        let mut total: u128 = 9;
+        let mut i = 0;
+        while i < 3 {
+            if i < n {
+                total += (rs[i].1 - rs[i].0) as u128 + 33 + 3 * TOK as u128 + 2 + per_part_hdrs;
+            }
+            i += 1;
+        }
+        assert!(total > u64::MAX as u128, "C03/C13: 413 although the multipart body fits in 64 bits");
+        check_small_body(resp);
+        return;
+    }
+    assert!(st == 206, "C03: multi-range request answered with an unexpected status");
+    assert!(!forbidden, "C03: multipart although the ranges alone total the entity length or more");
+    assert!(sn.count[S_CONTENT_RANGE] == 0, "C06: top-level Content-Range on a multipart response");
+    assert!(sn.count[S_CONTENT_TYPE] == 1, "C06: multipart without exactly one Content-Type");
+    assert!(bytes_eq(sn.val[S_CONTENT_TYPE].unwrap(), b"multipart/byteranges; boundary=B"), "C06: Content-Type is not multipart/byteranges with the boundary used in the body");
+    assert!(sn.count[S_CONTENT_LENGTH] == 1, "C01: multipart 206 without Content-Length");
+    let cl = parse_whole_decimal(sn.val[S_CONTENT_LENGTH].unwrap());
+    assert!(cl.is_some(), "C01: malformed Content-Length");
+    let cl = cl.unwrap();
+    if c.method == M_HEAD {
+        check_empty_body(resp);
+        return;
+    }
+    expect_kind!(resp, Multipart, bd => check_multi_body(c, d, rs, bd, cl, with_hdrs))
+}
+
+fn check_multi_body(c: Cfg, d: &EntDraw, rs: &[(u64, u64); 3], body: crate::body::Body<Chunk, HErr>, cl: u64, with_hdrs: bool) {
+    let n = c.nranges;
+    let mut body = std::pin::pin!(body);
+    let mut dr = Drain::new();
+    // per part: header + up to K_EV+1 data polls (+ pendings) ; + trailer + end + 2 extra polls
+    drain(&mut body, MP_POLLS, Some(cl), &mut dr);
+    assert!(dr.hint_violations == 0, "C12: multipart size hint not exact");
+    assert!(dr.eos_violations == 0, "C12: data or error after is_end_stream()");
+    assert!(!dr.data_after_terminal, "C20: data after the body terminated");
+    assert!(!dr.overflow_total && dr.total <= cl, "C01: multipart body delivered more than announced");
+    if dr.ended && !dr.errored {
+        assert!(dr.total == cl, "C01: multipart body ended cleanly with a different length than announced");
+        // structure: for each part a literal header block, then entity bytes a..b; finally the
+        // closing delimiter. One pass over the polls with scalar running state.
+        let hn = if with_hdrs { d.nhdr } else { 0 };
+        let mut part = 0usize; // number of part headers seen
+        let mut pos = 0u64; // next expected entity position inside the current part
+        let mut end = 0u64; // end of the current part
+        let mut closed = false;
+        let mut k = 0;
+        while k < MAX_POLLS {
+            if k < MP_POLLS {
+                let f = dr.ev[k];
+                if f.kind == FR_LIT {
+                    assert!(!closed, "C06: data after the closing delimiter");
+                    assert!(part == 0 || pos == end, "C06: part body is not exactly the entity bytes a..=b");
+                    assert!(part < n, "C06: more parts than requested ranges");
+                    let (a, b) = if part == 0 { rs[0] } else if part == 1 { rs[1] } else { rs[2] };
+                    let ok = match &dr.lit[k] {
+                        Some(v) => part_header_ok(&v[..], a, b, d.len, hn),
+                        None => false,
+                    };
+                    assert!(ok, "C06: part header is not delimiter + Content-Range a-b/L + entity headers + blank line");
+                    part += 1;
+                    pos = a;
+                    end = b;
+                } else if f.kind == FR_ENT {
+                    assert!(!closed && part >= 1, "C06: entity bytes outside a part");
+                    assert!(f.a == pos, "C06: entity bytes out of place inside a part");
+                    pos = pos.wrapping_add(f.b);
+                } else if f.kind == FR_STAT {
+                    assert!(!closed, "C06: two closing delimiters");
+                    assert!(part == n && pos == end, "C06: closing delimiter before all parts were complete");
+                    let ok = match dr.stat[k] {
+                        Some(t) => bytes_eq(t, b"\r\n--B--\r\n"),
+                        None => false,
+                    };
+                    assert!(ok, "C06: closing delimiter is not --B--");
+                    closed = true;
+                }
+            }
+            k += 1;
+        }
+        assert!(closed, "C06: closing delimiter missing");
+        let mut ci = 0;
+        while ci < 3 {
+            if ci < n {
+                assert!(unsafe { CALL_LOG[ci] } == rs[ci], "C06: entity asked for a different range than the part announces");
+            }
+            ci += 1;
+        }
+        assert!(unsafe { CALLS } == n, "C06: number of get_range calls differs from the number of parts");
+        kani::cover!(true, "multipart body ended cleanly");
+    }
+    let script_err = unsafe {
+        let mut e = false;
+        let mut ci = 0;
+        while ci < K_CALLS {
+            let mut k = 0;
+            while k < K_EV {
+                if SCRIPTS[ci][k].kind % 3 == EV_ERR {
+                    e = true;
+                }
+                k += 1;
+            }
+            ci += 1;
+        }
+        e
+    };
+    assert!(dr.terminal(), "multipart body did not terminate within the poll bound");
+    if !script_err {
+        assert!(dr.ended && !dr.errored, "C01: contract-honouring entity but the multipart body failed");
     }
 }
 
-#[kani::proof]
-#[kani::unwind(12)]
-#[kani::stub(std::time::SystemTime::now, hc::stub_now)]
-#[kani::stub(core::slice::memchr::memchr, hc::naive_memchr)]
-#[kani::stub(<u64 as std::str::FromStr>::from_str, stub_u64_from_str)]
-pub fn serve_range1_fl() {
-    serve_range1_body(0)
-}
-#[kani::proof]
-#[kani::unwind(12)]
-#[kani::stub(std::time::SystemTime::now, hc::stub_now)]
-#[kani::stub(core::slice::memchr::memchr, hc::naive_memchr)]
-#[kani::stub(<u64 as std::str::FromStr>::from_str, stub_u64_from_str)]
-pub fn serve_range1_open() {
-    serve_range1_body(1)
-}
-#[kani::proof]
-#[kani::unwind(12)]
-#[kani::stub(std::time::SystemTime::now, hc::stub_now)]
-#[kani::stub(core::slice::memchr::memchr, hc::naive_memchr)]
-#[kani::stub(<u64 as std::str::FromStr>::from_str, stub_u64_from_str)]
-pub fn serve_range1_suffix() {
-    serve_range1_body(2)
+/// two parts: 2 x (header + K_EV events + tail chunk) + trailer + end + 2 polls past the end
+pub const MP_POLLS: usize = 12;
+
+/// Stub for `prepare_multipart` in scenarios with fewer than two ranges, where the real code
+/// never calls it: the model checker cannot always prune that branch syntactically, and
+/// executing it on unconstrained data is what exhausts memory. Reaching the stub is reported.
+pub fn stub_prepare_multipart(
+    res: http::response::Builder,
+    _ranges: &[Range<u64>],
+    _len: u64,
+    _include_entity_headers: Option<http::header::HeaderMap>,
+) -> Result<(http::response::Builder, Vec<Vec<u8>>, u64), MultipartLenOverflowError> {
+    assert!(false, "C03: multipart response prepared for a request with fewer than two satisfiable ranges");
+    std::mem::forget(res);
+    Err(MultipartLenOverflowError)
 }
 
-
-
-// ---- experiments (to be removed)
-fn mk(len: u64) -> HEnt { HEnt { len, etag: 0, etag_bytes: None, mtime: None, nhdr: 0 } }
-macro_rules! exp { ($n:ident, $u:expr, $body:expr) => {
-#[kani::proof]
-#[kani::unwind($u)]
-#[kani::stub(std::time::SystemTime::now, hc::stub_now)]
-pub fn $n() { let len: u64 = kani::any(); let f: fn(u64) = $body; f(len) } } }
-exp!(t1, 12, |len| {
-    let req = request(M_GET);
-    let r = req.headers().get(header::RANGE);
-    assert!(r.is_none());
-});
-exp!(t2, 12, |len| {
-    let req = request(M_GET);
-    let ent = mk(len);
-    let r = serve_inner(&ent, req.method(), req.headers());
-    match r { ServeInner::Simple(resp) => { assert!(resp.status().as_u16() == 200); std::mem::forget(resp); } _ => assert!(false) }
-});
-exp!(t3, 12, |len| {
-    let ent = mk(len);
-    let h = HeaderMap::new();
-    let r = serve_inner(&ent, &Method::GET, &h);
-    match r { ServeInner::Simple(resp) => { assert!(resp.status().as_u16() == 200); std::mem::forget(resp); } _ => assert!(false) }
-});
-exp!(t4, 12, |len| {
-    let r = crate::range::parse(None, len);
-    assert!(r == crate::range::ResolvedRanges::None);
-});
-fn stub_parse(_r: Option<&HeaderValue>, _len: u64) -> crate::range::ResolvedRanges { crate::range::ResolvedRanges::None }
-#[kani::proof]
-#[kani::unwind(12)]
-#[kani::stub(std::time::SystemTime::now, hc::stub_now)]
-#[kani::stub(crate::range::parse, stub_parse)]
-pub fn t5() { let len: u64 = kani::any();
-    let ent = mk(len);
-    let h = HeaderMap::new();
-    let r = serve_inner(&ent, &Method::GET, &h);
-    match r { ServeInner::Simple(resp) => { assert!(resp.status().as_u16() == 200); std::mem::forget(resp); } _ => assert!(false) }
+macro_rules! serve_harness_nomulti {
+    ($name:ident, $cfg:expr) => {
+        #[kani::proof]
+        #[kani::unwind(14)]
+        #[kani::stub(std::time::SystemTime::now, hc::stub_now)]
+        #[kani::stub(crate::range::parse, stub_parse)]
+        #[kani::stub(<u64 as std::fmt::Display>::fmt, hc::stub_u64_display)]
+        #[kani::stub(crate::serving::prepare_multipart, stub_prepare_multipart)]
+        pub fn $name() {
+            serve_cfg($cfg)
+        }
+    };
 }
+
+macro_rules! serve_harness {
+    ($name:ident, $cfg:expr) => {
+        #[kani::proof]
+        #[kani::unwind(14)]
+        #[kani::stub(std::time::SystemTime::now, hc::stub_now)]
+        #[kani::stub(crate::range::parse, stub_parse)]
+        #[kani::stub(<u64 as std::fmt::Display>::fmt, hc::stub_u64_display)]
+        pub fn $name() {
+            serve_cfg($cfg)
+        }
+    };
+}
+
+// =======================================================================================
+// C04: parse_modified_hdrs against the RFC 7232 precedence model.
+
+pub struct PDraw {
+    pub sk: u16,
+    pub has_mtime: bool,
+    pub m_secs: u64,
+    pub m_nanos: u32,
+    pub ius: u64,
+    pub ims: u64,
+}
+
+pub fn draw_precond() -> PDraw {
+    let p = PDraw {
+        sk: kani::any(),
+        has_mtime: kani::any(),
+        m_secs: kani::any(),
+        m_nanos: kani::any(),
+        ius: kani::any(),
+        ims: kani::any(),
+    };
+    kani::assume(p.m_nanos < 1_000_000_000);
+    kani::assume(p.m_secs <= httpdate::MAX_SECS && p.ius <= httpdate::MAX_SECS && p.ims <= httpdate::MAX_SECS);
+    p
+}
+
+/// One structural arm: which validators are present and what the tag lists say (constants);
+/// the modification time (with sub-second part) and both dates are symbolic.
+pub fn precond_case(
+    p: &PDraw,
+    etag: u8,
+    im: Option<&'static str>,
+    im_tags: &[&[u8]],
+    inm: Option<&'static str>,
+    inm_tags: &[&[u8]],
+    has_ius: bool,
+    has_ims: bool,
+) {
+    let et = etag_text(etag);
+    let etag_hv = et.map(HeaderValue::from_static);
+    let mut h = HeaderMap::new();
+    if let Some(t) = im {
+        h.insert(header::IF_MATCH, HeaderValue::from_static(t));
+    }
+    if let Some(t) = inm {
+        h.insert(header::IF_NONE_MATCH, HeaderValue::from_static(t));
+    }
+    if has_ius {
+        h.insert(header::IF_UNMODIFIED_SINCE, HeaderValue::model_from_inline(&httpdate::model_token_bytes(p.ius)));
+    }
+    if has_ims {
+        h.insert(header::IF_MODIFIED_SINCE, HeaderValue::model_from_inline(&httpdate::model_token_bytes(p.ims)));
+    }
+    let lm = if p.has_mtime { Some(UNIX_EPOCH + Duration::new(p.m_secs, p.m_nanos)) } else { None };
+    let got = parse_modified_hdrs(&etag_hv, &h, lm);
+
+    let eb = et.map(|t| t.as_bytes());
+    let im_c = match im {
+        None => TagCond::Absent,
+        Some(t) => oracle::tag_cond(t.len() == 1 && t.as_bytes()[0] == b'*', im_tags, eb, true),
+    };
+    let inm_c = match inm {
+        None => TagCond::Absent,
+        Some(t) => oracle::tag_cond(t.len() == 1 && t.as_bytes()[0] == b'*', inm_tags, eb, false),
+    };
+    let mt = if p.has_mtime { Some(p.m_secs) } else { None };
+    let exp_pf = oracle::precondition_failed(im_c, if has_ius { Some(p.ius) } else { None }, mt);
+    let exp_nm = oracle::not_modified(inm_c, if has_ims { Some(p.ims) } else { None }, mt);
+    match got {
+        Ok((pf, nm)) => {
+            assert!(pf == exp_pf, "C04: 412 decision deviates from RFC 7232 (If-Match strong comparison; If-Unmodified-Since only without If-Match, against the modification second)");
+            assert!(nm == exp_nm, "C04: 304 decision deviates from RFC 7232 (If-None-Match weak comparison; If-Modified-Since only without If-None-Match, against the modification second)");
+        }
+        Err(_) => assert!(false, "C04: well-formed validators rejected as a bad request"),
+    }
+    kani::cover!(exp_pf, "precondition fails");
+    kani::cover!(exp_nm && !exp_pf, "not modified");
+    kani::cover!(!exp_nm && !exp_pf, "continue");
+}
+
+#[path = "precond_gen.rs"]
+pub mod pgen;
+
+#[path = "serve_gen.rs"]
+pub mod gen;
+
+
